@@ -38,6 +38,8 @@ PIPE = {"name": "user", "priority": 10, "transformations": [
     # values read from a file, filtered: every rule gets the filtered values (the item caches what it read)
     {"id": "ext", "type": "file_placeholders", "path": "@USERS@", "filter": "^adm_", "include": ["users"]},
     {"id": "boom", "type": "rule_failure", "message": "x", "rule_conditions": [{"type": "logsource", "category": "fail"}]},
+    # a strict mapping check for rules of one log source: which fields count as mapped is bookkeeping of the rule at hand only
+    {"id": "strict", "type": "strict_field_mapping_failure", "rule_conditions": [{"type": "logsource", "category": "strict"}]},
     {"id": "after", "type": "field_name_suffix", "suffix": "_S", "rule_conditions": [{"type": "processing_state", "key": "k", "val": "KV"}],
      "field_name_conditions": [{"type": "include_fields", "fields": ["g"]}]},
 ], "postprocessing": [{"id": "pp", "type": "template", "template": "{{ query }} /post:k={{ pipeline.state.get('k') }},bk={{ pipeline.state.get('bk') }},applied={{ pipeline.applied_ids|sort|join('+') }},vars={{ pipeline.vars|dictsort|join('+') }}"},
@@ -48,11 +50,13 @@ BACKEND_PIPE = {"name": "backend", "priority": 1, "transformations": [{"id": "bs
 
 
 def rule_doc(kind, i=0):
-    cat = {"state": "withstate", "pipefail": "fail"}.get(kind, "c")
+    cat = {"state": "withstate", "pipefail": "fail", "targetprobe": "strict"}.get(kind, "c")
     d = {"title": f"{kind}{i}", "logsource": {"category": cat}, "detection": {"sel": {"fieldA": f"v{i}", "g": 1, "u|expand": "%users%"}, "flt": {"h": f"x{i}"}, "condition": "sel and not flt"}}
     if kind == "casedprobe": d["detection"] = {"sel": {"fieldA|cased|contains": f"Ab{i}", "fieldB|cased|startswith": "Cd", "fieldC|cased|endswith": "Ef", "g": 1,
                                                        "fieldD|contains": f"mid{i}", "fieldE|startswith": "head", "fieldF|endswith": "tail", "fieldG|re": "x+y", "fieldH": None},
                                                "flt": {"h": f"x{i}"}, "condition": "sel and not flt"}
+    if kind == "targetprobe":      # names the TARGET of the field mapping directly: with fresh objects the strict check rejects it
+        d["detection"] = {"sel": {"mappedA": f"v{i}"}, "condition": "sel"}
     if kind == "existsprobe": d["detection"] = {"sel": {"fieldA": f"v{i}", "g": 1, "n|exists": False, "m|exists": True, "ip|cidr": "10.0.0.0/8", "s|startswith": "x"},
                                                 "flt": {"h": f"x{i}", "k|exists": False}, "condition": "sel and not flt"}
     if kind == "placeholder": d["detection"]["sel"]["fieldA|expand"] = "%nope%"; del d["detection"]["sel"]["fieldA"]
@@ -84,12 +88,14 @@ def gen_cases(tier, seed, gen, effort):
     cases = []
     for h in hists:
         for probe in ("convert", "convert_rule"):
-            for pk in ("plain", "state", "casedprobe", "existsprobe"):
+            for pk in ("plain", "state", "casedprobe", "existsprobe", "targetprobe"):
                 if len(h) > 2 and rnd.random() < 0.5:
                     continue
                 if pk == "casedprobe" and len(h) <= 2 and len(h) > 0 and rnd.random() < 0.5:
                     continue
                 if pk == "existsprobe" and "other_class" not in h and rnd.random() < 0.7:
+                    continue
+                if pk == "targetprobe" and (not h or rnd.random() < 0.6):
                     continue
                 cases.append({"history": list(h), "probe": probe, "probe_kind": pk})
     # registration histories of sigma.pipelines.base.Pipeline (decorated functions / inheriting classes): what a handle denotes
@@ -226,12 +232,18 @@ def run_impl(case):
     try:
         want = run_history(case, fresh=True)
     except Exception as e:
-        return {"outcome": "harness:" + outcome_of_exception(e), "msg": str(e)[:160]}
+        oc = outcome_of_exception(e)
+        if not oc.startswith("sigma:"):
+            return {"outcome": "harness:" + oc, "msg": str(e)[:160]}
+        want = ["ERROR " + oc + ": " + str(e)[:120]]          # the probe is rejected with fresh objects: it must be rejected the same way after any history
     try:
         got = run_history(case, fresh=False)
         return {"outcome": "ok", "got": got, "want": want}
     except Exception as e:
-        return {"outcome": outcome_of_exception(e), "msg": str(e)[:200], "want": want}
+        oc = outcome_of_exception(e)
+        if oc.startswith("sigma:") and want and str(want[0]).startswith("ERROR "):
+            return {"outcome": "ok", "got": ["ERROR " + oc + ": " + str(e)[:120]], "want": want}
+        return {"outcome": oc, "msg": str(e)[:200], "want": want}
 
 
 def sys_ops(case):
